@@ -205,3 +205,84 @@ reg("C48", "exploration",
     "signal mappings, delays (0, negative, beyond range), gains and biases.",
     "Memory sharing between output and input is counted, not flagged (the statement forbids modifying the input, not sharing it).",
     "icontract snapshot/ensure purity monitor + bitwise column-wise metamorphic relation")
+
+reg("C27", "exploration",
+    "A numpy reference written from the documentation (computation chapter, XML reference, modeling.rst, FLV.m) models every "
+    "transmission (joint, jointinparent, tendon, site with/without refsite, slider-crank, body/adhesion), gain/bias/dynamics "
+    "family, actearly, the clamp chain (ctrlrange, forcerange, tendon and joint actuator-force ranges) and activation "
+    "integration; on generated actuator/transmission lattices it is compared with actuator_length/velocity/moment/force, "
+    "qfrc_actuator == moment' force (+ actuator gravcomp), group disabling, and the activations after mj_step (inside actrange, "
+    "frozen for disabled groups); moment arms are cross-checked by finite differences of actuator_length along mj_integratePos.",
+    "Trusts vf/ref/actuator.py, vf/ref/rbd.py kinematics and the engine's ten_length/ten_J (C07). Families without a formula in "
+    "/repo/doc (dcmotor, pid with slewmax, orientation on sites) get the range/moment/group clauses only. Five open known findings.",
+    "reference-model oracle over a generated actuator/transmission lattice + finite-difference moment check + one-step activation monitor")
+
+reg("C29", "exploration",
+    "qfrc_spring, qfrc_damper, qfrc_gravcomp and qfrc_passive are compared with the documented formulas (polynomial stiffness and "
+    "damping on scalar joints and tendons, ball/free springs through the rotation vector from springref, tendon dead-band, "
+    "actuator-contributed damping, per-body gravity compensation at the COM with the actuatorgravcomp exclusion, disable flags); "
+    "qfrc_spring is also compared with the negative finite-difference gradient of the reported potential energy[0], damping power "
+    "must be non-positive, and the passive force at rest at the spring reference must vanish.",
+    "Trusts vf/ref/passive.py and rbd.py; fluid forces belong to C25; states within 1e-4 of a dead-band edge are skipped and counted.",
+    "reference-model oracle + energy-gradient metamorphic clause + dissipation-sign monitor")
+
+reg("C05", "exploration",
+    "After mj_forward, mj_step is executed on a twin mjData and the resulting state is compared with dense numpy reference updates "
+    "fed with the engine's own post-forward quantities (mj_fullM, qfrc_smooth, qfrc_constraint, qacc, act_dot): semi-implicit Euler "
+    "with (M+hD)^-1 where D comes from finite differences of the damper force, implicit and implicitfast with M - h df/dv from "
+    "centred finite differences (implicitfast symmetrised without the RNE term), RK4 from the classical tableau re-implemented from "
+    "scratch; exactly checked: time += timestep (bitwise), q+ = q (+) h v+ on the joint manifold, unit quaternions, activations by "
+    "the documented rule with actrange clamping.",
+    "Trusts numpy linear algebra, the exponential map of vf/ref/rbd.py and the engine's forward outputs (validated by C06/C09). "
+    "Two open known findings (implicit derivative ignores ctrl and joint-force clamps).",
+    "reference-model oracle with finite-difference derivatives + twin execution")
+
+reg("C08", "exploration",
+    "Static clauses: energy[1] against 0.5 v'Mv (dense M) and an independent kinetic energy, finite-difference gradient of energy[0] "
+    "against -qfrc_spring. Dynamic clauses: an RK4 refinement study at h, h/2, h/4 (h chosen from the local frequency) in which the "
+    "drift of total energy, and of total linear/angular momentum for gravity-free floating trees (independent reference), must be at "
+    "round-off or shrink by at least 11x per halving; subtree_linvel/angmom of tree roots are compared with the reference.",
+    "Trusts vf/ref/rbd.py, finite-difference step sizes and mj_fullM. No tendon armature is generated (open C06 finding). One open "
+    "known finding: RK4 is second order on rotating ball/free joints.",
+    "invariant monitors over a step-size refinement study + reference-model oracle for momenta and energies")
+
+reg("C14", "exploration",
+    "A reference applies the documented selection rules to ALL geom pairs (explicit pair bypass, exclude, same/welded body, "
+    "parent-child with the world exception, filterparent flag, contype/conaffinity, disable flags, override margin, bounding-sphere "
+    "filter) and decides proximity of each candidate by calling the engine's own narrow-phase function for the type pair directly; "
+    "the resulting pair set is compared with mjData.contact after mj_collision with the mid-phase on and off, includemargin and pair "
+    "condim are checked, and the contact list is compared bit for bit across a repeated call, a second mjData and a recompiled model. "
+    "Scenes of 20-300 geoms: clustered and spread, multi-geom bodies, planes, long thin rotated geoms, large margins, mocap/static bodies.",
+    "Trusts the narrow-phase colliders (C13/C15's subject) and geom_rbound; pairs within 1e-9 of the detection distance are 'either'. "
+    "Primitives only (no meshes/flexes/hfields in this build). Three open known findings.",
+    "brute-force reference-model oracle + metamorphic mid-phase toggle + twin determinism")
+
+reg("C16", "exploration",
+    "Closed-form ray/shape intersections (plane, sphere, capsule, ellipsoid, cylinder, box; all roots of the constituent quadrics "
+    "and planes, accepted when the exact signed distance vanishes) with re-implemented filters (geomgroup, flg_static through weld "
+    "groups, bodyexclude, transparent geoms) give the expected nearest distance and geom id for mj_ray; mj_multiRay is compared per "
+    "ray with mj_ray (unbounded and with a finite cutoff) and mju_rayGeom per primitive. Degenerate rays (tangent, through edges) "
+    "get an acceptance interval from 24 reference evaluations of the ray displaced or tilted by 1e-9.",
+    "Trusts geom_xpos/xmat/size from the engine and numpy. Primitives only. Planes hit from the back are accepted either way (docs "
+    "silent). Four open known findings (multiRay culling, patch seams).",
+    "reference-model oracle with degeneracy intervals + metamorphic multiRay==ray relation")
+
+reg("C38", "exploration",
+    "A ~40-line reference model inside the native harness (held map, access count, insertion number, per-asset model set, trim in "
+    "(access, insertion) order) is driven by the same seeded history as the real mjCCache and after every operation Size, Capacity, "
+    "HasAsset, PopulateData hit/miss, which insert's payload is stored, and the three private containers are compared (the harness "
+    "TU reads them through an access-specifier override of user_cache.h only). Concurrent histories with 2-8 threads on 1-4 ids are "
+    "checked per key for linearizability (Wing-Gong search, <= 41 ops per key, budget never exceeded) and at quiescence for "
+    "structural invariants, under TSan, ASan and rel; payloads carry unique ids and checksums.",
+    "Insertion refused rather than evicting when full, and Reset(model) wiping shared assets, are the documented behaviour. "
+    "Trusts the reference model and TSan's observed interleavings. One open known finding (HasAsset pointer outlives the lock).",
+    "reference-model history checking + per-key linearizability search under sanitizers")
+
+reg("C39", "exploration",
+    "Seeded operation histories over a 35-name universe in five equivalence classes (identical, case-only, separator-only, "
+    "directory-only, ./..) are checked against a reference dict keyed by the documented normalisation for every return code "
+    "(0, 2, -1), presence after every operation (sweep with both contains functions) and the exact bytes read through the resource "
+    "API; source buffers are scribbled after each add, resources are kept open across later operations, and every history ends with a "
+    "read-back of all entries; under rel and ASan+LSan.",
+    "Name-normalisation rules are taken from the header comments and upstream unit tests. Three open known findings.",
+    "sequential reference-model history checking with sanitizers")
